@@ -62,6 +62,9 @@ for rnd, root in ((1,'/tmp/seed'),(2,'/tmp/seed2'),(3,'/tmp/seed3'),(4,'/tmp/see
                 meta['note']=('on the current HEAD %s this change no longer breaks the property (a later fix: commit changed the surrounding behaviour; its demonstration '
                               'passes or is outdated there); it was confirmed and the check run on its original base %s' % (mo.group(1), mo.group(2)))
                 meta['quick_check_exit_with_patch'].pop('seed 1', None)
+            if old.get('evaluated_on_repo_commit'):
+                meta['evaluated_on_repo_commit']=old['evaluated_on_repo_commit']
+                meta['confirmed_in_scratch_worktree']['worktree']=old['confirmed_in_scratch_worktree']['worktree']
             json.dump(meta, open(os.path.join(d,'meta.json'),'w'), indent=1)
             rows.append((name, meta['caught_by'], checks))
 bad=[r for r in rows if not r[1] or any(v!=1 for c in r[2].values() for v in c.values())]
